@@ -1,3 +1,4 @@
+import FlowRecordProofs.Lemmas.FieldPack
 import FlowRecordProofs.Lemmas.Msgpack
 import FlowRecordProofs.Lemmas.Framing
 import FlowRecordProofs.Lemmas.MsgpackAny
@@ -182,3 +183,14 @@ example : SameDoc (.ext 14 (enc (.arr [.int 5, .nil]))) (.ext 14 ((0xdc :: beEnc
     (.arr (.cons (.int 5) (.cons .nil .nil)))
     ⟨_, _, ArrHead.a16 2 (by omega), ⟨_, _, IntEnc.u16 5 (by omega), ⟨[0xc0], [], rfl, rfl, rfl⟩, rfl⟩, rfl⟩
 
+
+/-- FIELD VALUES on the wire: a typed list that received plain elements in place is written with the published
+    encoding of the converted elements (the same packed value as the list that held them from the start); the
+    premise that `typedlist._pack` converts before packing is the regenerated source fact. -/
+theorem C02_inplace_elements_encoding {R : Type} (conv : R → Option FlowRecord.FieldPack.TVal)
+    (k : FlowRecord.FieldPack.Kind) (xs : List (FlowRecord.FieldPack.TVal ⊕ R)) (ts : List FlowRecord.FieldPack.TVal)
+    (h : FlowRecord.FieldPack.heldValues conv xs = some ts) :
+    (FlowRecord.FieldPack.packHeld conv k xs).map FlowRecord.Wire.PV.seq
+      = FlowRecord.FieldPack.packT (.list k) (.list ts) := by
+  rw [FlowRecord.FieldPack.packHeld_eq conv k (by decide) xs ts h]
+  simp [FlowRecord.FieldPack.packT]
